@@ -409,7 +409,13 @@ def lfo_script(rng, sid, n):
         if r < 0.08:
             f = rng.choice([0.0, fs, fs / 2, 1.0, 0.001, 1e-6, fs / 1024, fs / 16777216, rng.uniform(0, fs),
                             10 ** rng.uniform(-4, math.log10(fs))])
-            ops.append("freq " + hx(min(f, fs)))
+            if rng.random() < 0.12:
+                # alias-high: more than one cycle per tick is allowed (the counter wraps); up to 250 fs the u32
+                # addition cannot overflow (2^24 + 250 * 2^24 < 2^32)
+                f = rng.choice([1.5 * fs, 2.0 * fs, 2.5 * fs, rng.uniform(fs, 250.0 * fs)])
+                ops.append("freq " + hx(f))
+            else:
+                ops.append("freq " + hx(min(f, fs)))
         elif r < 0.14:
             p = rng.choice([0.0, 0.25, 0.5, 0.75, 0.999999, 1.0, 1.25, -0.25, -1.25, 123.456, -7.7, 1e-8, 16777216.5,
                             1e20, -1e20, rng.uniform(-3, 3), rng.uniform(0, 1),
@@ -589,6 +595,34 @@ def adsr_sustain_change(rng, sid):
     return Script(sid, ops, {"module": "adsr", "family": "sustain-change", "fs": fs})
 
 
+def adsr_param_then_gate(rng, sid):
+    """a parameter change IMMEDIATELY followed by a gate event (no tick in between), in every phase: the
+    gate event must latch the level the output is at, not the one a setting says it will be at"""
+    fs = rng.choice([1000.0, 48000.0, 100.0, 44100.0, 999.0])
+    t = max(0.001, rng.choice([3.0, 20.0, 200.0]) / fs)
+    n = max(1, int(t * fs))
+    ops = ["adsr.new " + hx(fs), "att " + hx(t), "dec " + hx(t), "rel " + hx(t),
+           "sus " + hx(rng.choice([0.25, 0.5, 0.8])), "gon"]
+    where = rng.choice(["attack", "decay", "sustain", "release"])
+    if where == "attack":
+        ops += ["tick"] * rng.randrange(1, max(2, n))
+    elif where == "decay":
+        ops += ["tick"] * (n + 1 + rng.randrange(1, max(2, n)))
+    else:
+        ops += ["tick"] * (2 * n + 8)
+        if where == "release":
+            ops.append("goff")
+            ops += ["tick"] * rng.randrange(1, max(2, n))
+    for _ in range(rng.randrange(1, 3)):
+        ops.append(rng.choice(["sus", "sus", "sus", "att", "dec", "rel"]) + " " +
+                   hx(rng.choice([0.0, 1.0, 0.1, 0.2, 0.9, t, 2 * t, rng.random()])))
+    ops.append("goff" if where != "release" else "gon")
+    ops += ["tick"] * (2 * n + 10)
+    ops.append("gon" if where != "release" else "goff")
+    ops += ["tick"] * (3 * n + 10)
+    return Script(sid, ops, {"module": "adsr", "family": "param-then-gate", "fs": fs})
+
+
 def adsr_slowest(rng, sid):
     """the slowest phases the clamps allow, at the highest sample rates: the per-tick increment must
     stay positive or the envelope hangs"""
@@ -652,6 +686,8 @@ def adsr_scripts(rng, n_hist, n_phase, n_ext):
     res.append(adsr_slow(rng, "adsr-slow0"))
     for i in range(max(n_hist // 5, 4)):
         res.append(adsr_sustain_change(rng, "adsr-sc%d" % i))
+    for i in range(max(n_hist // 4, 6)):
+        res.append(adsr_param_then_gate(rng, "adsr-pg%d" % i))
     for i in range(2):
         res.append(adsr_slowest(rng, "adsr-slowest%d" % i))
     for i in range(max(n_ext, 6)):
@@ -686,6 +722,10 @@ def glide_step(rng, sid, fs, t, lo=0.0, hi=1.0):
     n = int(math.ceil(t * fs))
     # a new processor starts with the fastest coefficients: settle on lo first, then select the time
     ops = ["glide.new " + hx(fs)]
+    if t > 0.06 and rng.random() < 0.5:
+        # "glide off" selected explicitly (same coefficients as a new processor, but through set_time); only when
+        # the step time is outside the 0.05 s dead band around 0, otherwise the second call is rightly ignored
+        ops.append("time " + hx(rng.choice([0.0, -0.0, 0.5 / fs])))
     ops += ["proc " + hx(lo)] * 12
     ops.append("time " + hx(t))
     ops += ["proc " + hx(hi)] * (min(3 * n, 60000) + 10)
